@@ -271,7 +271,7 @@ func (g *G) randAtom(countOnly bool) Atom {
 		a.Other = &q
 		a.Path = noInverse(a.Path)
 	case "datatype":
-		a.Dt = "http://www.w3.org/2001/XMLSchema#" + g.pick([]string{"string", "integer", "boolean", "float"})
+		a.Dt = "http://www.w3.org/2001/XMLSchema#" + g.pick([]string{"string", "integer", "boolean", "float", "string", "integer", "boolean", "float", "long", "int", "short", "byte", "double", "anyURI"})
 	case "pattern":
 		a.Lit = g.pick([]string{"a", "b", "c", "dd", "1", "true", "cc"})
 		a.AnchorStart, a.AnchorEnd = g.coin(0.5), g.coin(0.5)
